@@ -6,6 +6,7 @@ use crate::util::verif_h as uh;
 use crate::verif_common::*;
 use crate::verif_tier::THOROUGH;
 use http::header::{AUTHORIZATION, CONNECTION, CONTENT_LENGTH, COOKIE, HOST, TRANSFER_ENCODING};
+use crate::verif_common::X_KEEP;
 
 /// `AmendedRequest::new(request)` without `core::array::from_fn` (see util_h::mk_header_vec).
 pub(crate) fn mk_amended(request: Request<()>) -> AmendedRequest<()> {
@@ -282,3 +283,237 @@ fn c17_cell_cl_x_plus_added() {
     c17_menu_case(0, true, 4, true);
 }
 
+
+// =====================================================================================
+// C16 / C13 / C02-L1 — effective header sequence
+// =====================================================================================
+
+/// Effective headers of `ar` as (name-code, first value byte) pairs, up to 6.
+/// name codes: 1 cookie, 2 authorization, 3 content-length, 4 host, 5 x-keep, 6 transfer-encoding, 9 other
+fn effective(ar: &AmendedRequest<()>) -> ([(u8, u8); 6], usize) {
+    let mut out = [(0u8, 0u8); 6];
+    let mut n = 0;
+    for (k, v) in ar.headers() {
+        let code = if *k == COOKIE {
+            1
+        } else if *k == AUTHORIZATION {
+            2
+        } else if *k == CONTENT_LENGTH {
+            3
+        } else if *k == HOST {
+            4
+        } else if *k == X_KEEP {
+            5
+        } else if *k == TRANSFER_ENCODING {
+            6
+        } else {
+            9
+        };
+        if n < 6 {
+            out[n] = (code, v.as_bytes().first().copied().unwrap_or(0));
+        }
+        n += 1;
+    }
+    (out, n)
+}
+
+/// A redirected flow's request as `as_new_flow` leaves it, over at most ONE original header
+/// (HeaderMap insertions and iteration are expensive under CBMC; two entries exhaust 24 GB):
+/// which = 0 none, 1 cookie, 2 authorization, 3 content-length, 4 x-keep.
+fn mk_redirected(which: usize, keep_auth: bool, fresh: bool) -> AmendedRequest<()> {
+    let mut req = mk_request(0, 2);
+    match which {
+        1 => { req.headers_mut().append(COOKIE, HeaderValue::from_static("o")); }
+        2 => { req.headers_mut().append(AUTHORIZATION, HeaderValue::from_static("p")); }
+        3 => { req.headers_mut().append(CONTENT_LENGTH, HeaderValue::from_static("3")); }
+        4 => { req.headers_mut().append(X_KEEP, HeaderValue::from_static("k")); }
+        _ => {}
+    }
+    let mut ar = mk_amended(req);
+    if !fresh {
+        if !keep_auth {
+            ar.unset_header(AUTHORIZATION).unwrap();
+        }
+        ar.unset_header(COOKIE).unwrap();
+        ar.unset_header(CONTENT_LENGTH).unwrap();
+    }
+    ar
+}
+
+fn c13_case(which: usize, keep_auth: bool) {
+    let ar = mk_redirected(which, keep_auth, false);
+    let (h, n) = effective(&ar);
+    let kept = which == 4 || (which == 2 && keep_auth);
+    if kept {
+        let code = if which == 4 { (5, b'k') } else { (2, b'p') };
+        assert!(n == 1 && h[0] == code, "C13/unrelated-or-policy-kept-header-is-sent");
+    } else {
+        assert!(n == 0, "C13/inherited-cookie-length-authorization-suppressed");
+    }
+    assert!(ar.headers_len() == n, "C02/headers-len-equals-effective-count");
+    kani::cover!(true, "cell-reached");
+    core::mem::forget(ar);
+}
+
+//@ props: C13
+//@ tier: off
+//@ unwind: 7
+//@ unwindset: memcmp=8 from_static=8 extend_with=10 FnvHasher=10 effective=8
+//@ timeout: 1500
+//@ mem: 24
+//@ encodes: AmendedRequest::headers (chain + inherited-unset filter), unset_header, headers_len, HeaderMap::append/iter
+//@ vars: concrete per harness: the single original header (cookie | authorization | content-length | x-keep) and whether the policy decision kept authorization
+//@ bounds: one original header per harness
+//@ outside: which targets keep the authorization header (can_redirect_auth_header on real URIs), repeated fields, several originals at once
+//@ clause: on a redirected request the inherited Cookie and Content-Length are never effective; the inherited Authorization is effective iff the policy decision kept it; unrelated headers stay
+#[kani::proof]
+fn c13_inherited_cookie_suppressed() {
+    c13_case(1, false);
+}
+
+//@ like: c13_inherited_cookie_suppressed
+#[kani::proof]
+fn c13_inherited_content_length_suppressed() {
+    c13_case(3, true);
+}
+
+//@ like: c13_inherited_cookie_suppressed
+#[kani::proof]
+fn c13_inherited_authorization_dropped() {
+    c13_case(2, false);
+}
+
+//@ like: c13_inherited_cookie_suppressed
+#[kani::proof]
+fn c13_inherited_authorization_kept_when_policy_allows() {
+    c13_case(2, true);
+}
+
+//@ like: c13_inherited_cookie_suppressed
+#[kani::proof]
+fn c13_unrelated_header_kept() {
+    c13_case(4, false);
+}
+
+//@ props: C16 C02
+//@ tier: off
+//@ unwind: 7
+//@ unwindset: memcmp=8 from_static=8 extend_with=10 FnvHasher=10 effective=8
+//@ timeout: 1500
+//@ mem: 24
+//@ encodes: AmendedRequest::set_header, AmendedRequest::headers, headers_len, unset_header
+//@ vars: redirected request (suppression list authorization/cookie/content-length; one inherited cookie in the second harness) plus caller-added cookie, authorization, host in that order; fresh request (original x-keep) plus caller-added content-length, cookie
+//@ bounds: up to three additions, at most one original header
+//@ outside: more than 3 additions (the iterator is a chain of two slices; nothing depends on the count), other names
+//@ clause: every caller-added header is effective, in the order added, ahead of the original ones - also when its name is on the inherited-suppression list; the same-named inherited headers stay suppressed
+#[kani::proof]
+fn c16_added_headers_survive_suppression() {
+    let mut ar = mk_redirected(0, false, false);
+    ar.set_header(COOKIE, HeaderValue::from_static("a")).unwrap();
+    ar.set_header(AUTHORIZATION, HeaderValue::from_static("b")).unwrap();
+    ar.set_header(HOST, HeaderValue::from_static("c")).unwrap();
+    let (h, n) = effective(&ar);
+    assert!(n >= 1 && h[0] == (1, b'a'), "C16/caller-added-cookie-is-sent");
+    assert!(n >= 2 && h[1] == (2, b'b'), "C16/caller-added-authorization-is-sent");
+    assert!(n == 3 && h[2] == (4, b'c'), "C16/caller-added-headers-in-order");
+    assert!(ar.headers_len() == n, "C02/headers-len-equals-effective-count");
+    core::mem::forget(ar);
+}
+
+//@ like: c16_added_headers_survive_suppression
+#[kani::proof]
+fn c16_added_cookie_sent_inherited_cookie_suppressed() {
+    let mut ar = mk_redirected(1, false, false);
+    ar.set_header(COOKIE, HeaderValue::from_static("a")).unwrap();
+    let (h, n) = effective(&ar);
+    assert!(n >= 1 && h[0] == (1, b'a'), "C16/caller-added-cookie-is-sent");
+    assert!(n == 1, "C13/inherited-cookie-stays-suppressed");
+    assert!(ar.headers_len() == n, "C02/headers-len-equals-effective-count");
+    core::mem::forget(ar);
+}
+
+//@ like: c16_added_headers_survive_suppression
+#[kani::proof]
+fn c16_added_headers_fresh_flow() {
+    let mut ar = mk_redirected(4, false, true);
+    ar.set_header(CONTENT_LENGTH, HeaderValue::from_static("3")).unwrap();
+    ar.set_header(COOKIE, HeaderValue::from_static("a")).unwrap();
+    let (h, n) = effective(&ar);
+    assert!(n == 3 && h[0] == (3, b'3') && h[1] == (1, b'a') && h[2] == (5, b'k'), "C16/caller-added-headers-first-in-order");
+    assert!(ar.headers_len() == n, "C02/headers-len-equals-effective-count");
+    core::mem::forget(ar);
+}
+
+//@ props: C16
+//@ tier: quick
+//@ unwind: 6
+//@ unwindset: memcmp=8 from_static=8
+//@ timeout: 900
+//@ mem: 24
+//@ encodes: AmendedRequest::set_header, unset_header, headers (chain + filter), headers_len
+//@ vars: redirected request without original headers, suppression list [cookie]; caller adds cookie: a
+//@ bounds: one caller-added header whose name is on the inherited-suppression list (the minimal scenario of the property's 'in particular' clause); larger scenarios exhaust 24 GB in http's header iterators
+//@ outside: several additions, order among additions, original headers present at the same time
+//@ clause: a header added by the caller for the redirect target is effective although the same-named inherited header is suppressed
+#[kani::proof]
+fn c16_added_cookie_survives_suppression_minimal() {
+    let mut ar = mk_amended(mk_request(0, 2));
+    ar.unset_header(COOKIE).unwrap();
+    ar.set_header(COOKIE, HeaderValue::from_static("a")).unwrap();
+    assert!(ar.headers_len() == 1, "C16/caller-added-cookie-is-sent");
+    let first_is_cookie = match ar.headers().next() {
+        Some((k, _)) => *k == COOKIE,
+        None => false,
+    };
+    assert!(first_is_cookie, "C16/caller-added-cookie-is-sent");
+    kani::cover!(true, "reached");
+    core::mem::forget(ar);
+}
+
+fn c13_min_case(which: usize, keep_auth: bool) {
+    let ar = mk_redirected(which, keep_auth, false);
+    let kept = which == 4 || (which == 2 && keep_auth);
+    assert!(ar.headers_len() == kept as usize, "C13/inherited-cookie-length-authorization-suppressed-unless-kept");
+    kani::cover!(true, "cell-reached");
+    core::mem::forget(ar);
+}
+
+//@ props: C13
+//@ tier: quick
+//@ unwind: 6
+//@ unwindset: memcmp=8 from_static=8 extend_with=10 FnvHasher=10
+//@ timeout: 1200
+//@ mem: 24
+//@ encodes: AmendedRequest::headers (chain + inherited-unset filter), headers_len, unset_header, HeaderMap::append/iter
+//@ vars: concrete per harness: the single original header (cookie | authorization | content-length | x-keep) and whether the policy decision kept authorization
+//@ bounds: one original header per harness; effective-header COUNT only
+//@ outside: which targets keep the authorization header (can_redirect_auth_header on real URIs), several originals at once, the redirect chain itself (each hop rebuilds from the original request)
+//@ clause: on a redirected request the inherited Cookie and Content-Length are never effective; the inherited Authorization is effective iff the policy decision kept it; unrelated headers stay
+#[kani::proof]
+fn c13_min_cookie_suppressed() {
+    c13_min_case(1, false);
+}
+
+//@ like: c13_min_cookie_suppressed
+#[kani::proof]
+fn c13_min_content_length_suppressed() {
+    c13_min_case(3, true);
+}
+
+//@ like: c13_min_cookie_suppressed
+#[kani::proof]
+fn c13_min_authorization_dropped() {
+    c13_min_case(2, false);
+}
+
+//@ like: c13_min_cookie_suppressed
+#[kani::proof]
+fn c13_min_authorization_kept() {
+    c13_min_case(2, true);
+}
+
+//@ like: c13_min_cookie_suppressed
+#[kani::proof]
+fn c13_min_unrelated_kept() {
+    c13_min_case(4, false);
+}
